@@ -842,7 +842,7 @@ func firstDiff(a, b []byte) int {
 func init() {
 	harness.Register(&harness.Prop{
 		ID: "C15", Engine: "E3", Level: "exploration", Gen: genC15, Exec: execC15,
-		Runs:      map[string]int{"quick": 60000, "thorough": 1500000},
+		Runs:      map[string]int{"quick": 300000, "thorough": 9000000},
 		Rule:      "seeded histories (up to 120 quick / 400 thorough operations) of insert/get/overwrite/delete with object sizes 1..max managed size (knob randomised per run), total volume below, at and above one direct block (block size randomised 512 B .. 64 KiB), interleaved with write-out + load-back on the simulated disk; byte-store model id -> bytes checked after every step: every live id returns exactly its bytes, live ids pairwise distinct, header object count equals the model's, a refused insert changes nothing, after write+load everything still holds also through the read-only FractalHeap.ReadObject; non-trivial = fill level >= 80% of a block or growth past the first block, plus a write/load cycle; distinct by (block size, max object size, fill bucket, grew?, cycles)",
 		Technique: "deterministic simulation of the structure API over the simulated disk with write/load restarts vs byte-store model",
 		Assumptions: []string{"get/overwrite/delete are issued on live ids; forged ids are only used with GetObject and only 'no panic' is checked",
